@@ -248,9 +248,7 @@ func c03(r *vc.Run) int {
 		m.mu.Lock()
 		m.Children++
 		m.Evaluations++
-		for _, s := range raceSigs(res.Stderr) {
-			m.Races[s]++
-		}
+		m.addRaces(res.Stderr)
 		m.mu.Unlock()
 		// a -race child exits 66 when the detector printed a report; the report is a diagnostic
 		// (counted above, shown in the notes), it is not the exit status the property speaks about
